@@ -63,7 +63,22 @@ func viewInstance(o *Oblig) *instView {
 
 func replayInstance(u *Universe, st *SpecTables, d *Discharger, o *Oblig, repo string) (string, bool) {
 	if o.Template == nil {
-		return replaySymbolic(u, st, d, o, repo)
+		rep, ok := replaySymbolic(u, st, d, o, repo)
+		if ok {
+			return rep, ok
+		}
+		// decoder-level obligations: bounded witness search from the public entry points
+		if o.Decls != nil && o.Decls.Fn != nil && o.Decls.Fn.Pkg != nil {
+			pd := pkgDirOf(o.Decls.Fn)
+			if pd == "v3/metric" || pd == "v2/metric" {
+				n := o.Decls.Fn.Obj.Name()
+				if n == "Decode" || n == "decodeOne" || n == "GetVersion" || n == "get" || strings.HasPrefix(n, "Get") || n == "Encode" || n == "String" || n == "IsEmpty" {
+					r2, ok2 := decodeWitnessSearch(st, repo, pd)
+					return rep + r2, ok2
+				}
+			}
+		}
+		return rep, ok
 	}
 	pkg, req, observe := buildRequest(o)
 	if req == nil {
@@ -236,6 +251,3 @@ func judgeObserved(d *Discharger, t *FamTemplate, args []string, observed string
 	return "noanswer", out.String()
 }
 
-func replaySymbolic(u *Universe, st *SpecTables, d *Discharger, o *Oblig, repo string) (string, bool) {
-	return "", false
-}
